@@ -105,6 +105,8 @@ def fold_omit(im: Image):
     if omit is None:
         raise AnalysisError(f"{h.rel}: _omit not found")
     hit = microeval.Interp(name=h.rel, extra_globals={h.types_alias: types_mod})
+    for k_, v_ in microeval.std_modules(hit).items():
+        hit.globals.setdefault(k_, v_)
 
     def f(cname: str, attr: str) -> bool:
         try:
@@ -223,6 +225,9 @@ def fold_factories(im) -> FactoryFold:
         conv = Record("Converter", {"register_unstructure_hook_factory": reg_factory("unstructure"),
                                     "register_structure_hook_factory": reg_factory("structure")})
         it = Interp(name=h.rel, extra_globals={"attrs": attrs_mod, "cattrs": cattrs_mod, h.types_alias: types_mod})
+        from .microeval import std_modules as _std
+        for k_, v_ in _std(it).items():
+            it.globals.setdefault(k_, v_)
         # module-level state of _hooks.py that the register function may use (caches, constants)
         for st in h.tree.body:
             if isinstance(st, (ast.Assign, ast.AnnAssign)):
